@@ -1511,7 +1511,7 @@ class C03(OutcomeCheck):
     level_text = ("Every outcome of every explored iteration of the litmus core (and of a few programs with tens of thousands of executions, run on the implementation only) must be allowed by the "
                   "weakest documented model (RC11.v weak instance: SeqCst accesses behave as acquire/release as loom's README says, SC fences kept, C++20 release sequences). Forbidden outcomes are "
                   "violations. Three defects of the modification-order bookkeeping found this way or while proving were repaired (fixed entries 189e88b, c0421c4, 01ecff8). Proved: exact candidate sets, "
-                  "coherence and RMW atomicity over sequences of operations of any number of threads for the current functions (AtomicClosure; ring wrap-around excluded), release/acquire, RMW release "
+                  "coherence and RMW atomicity over sequences of operations of any number of threads for the current functions (AtomicClosure; ring wrap-around excluded) and over the executions of the model L from init_exec through a frame lemma over all micro-operations (AtomicRun..AtomicRun4: invariant, RMW atomicity, CoRR/CoWR along SyncMono.steps; hypotheses left: ring room, and for replayed load entries that the recorded entry equals the candidate list -- proved for first iterations and after the stored prefix, checked with a sound Coq checker otherwise; no-hypothesis instances for two concrete programs), release/acquire, RMW release "
                   "sequences and fences transfer at least the clocks C11 demands.")
     level_note = "coherence and atomicity of the modification-order bookkeeping are theorems about L (one cell, no ring wrap-around); the full RC11 consistency of explored executions (SC fences, release sequences across cells) is oracle-checked on the litmus core"
     det_family = lambda self, ctx: gen.fam_litmus_core(ctx.tier)
